@@ -186,6 +186,66 @@ def build(tier):
                replay={"adapter": "demos:run", "payload": {"name": "C08b_demo_2"}})
     P.trusted.append(ndt.DOC + "; torch.mean over a tensor of concrete shape")
 
+    # which distribution is projected: the TARGET network's atom distribution of the next observation at an action that is greedy for the
+    # ONLINE network's Q-values on that same next observation (one generic batch row, symbolic number of actions)
+    NACT = z3.Int("n_actions")
+    QV = z3.Function("q_value_of", z3.IntSort(), z3.IntSort(), z3.IntSort(), z3.RealSort())      # (network, input, action)
+    a_q = z3.Int("a!q")
+    P.axioms += [NACT >= 1]
+
+    class ActIdx:
+        def __init__(self, i):
+            self.i = i
+
+    class QRow:
+        def __init__(self, net, inp):
+            self.net, self.inp = net, inp
+
+        def getattr(self, ex, st, name):
+            if name == "argmax":
+                def am(ex, st, a, k):
+                    i = z3.Int(fresh_name("greedy"))
+                    st.assume(z3.And(0 <= i, i < NACT, z3.ForAll([a_q], z3.Implies(z3.And(0 <= a_q, a_q < NACT), QV(self.net, self.inp, i) >= QV(self.net, self.inp, a_q)))))
+                    return ActIdx(i)
+                return Fn(model=am, name=name)
+            raise Undecided(f"q-row attribute {name}")
+
+    class DistRows:
+        def __init__(self, net, inp):
+            self.net, self.inp = net, inp
+
+        def getitem(self, ex, st, idx):
+            if isinstance(idx, tuple) and len(idx) == 2 and isinstance(idx[1], ActIdx):
+                return ("atom-distribution", self.net, self.inp, idx[1].i)
+            raise Undecided("indexing of the target distribution")
+
+    class RNet:
+        def __init__(self, net):
+            self.net = net
+
+        def call(self, ex, st, args, kwargs):
+            inp = {"obs": 1, "next_obs": 2}.get(args[0])
+            if inp is None:
+                raise Undecided("network applied to an unknown input")
+            return QRow(self.net, inp) if kwargs.get("q", True) else DistRows(self.net, inp)
+
+    def rb_self(ex, st, label):
+        o = Obj("model.RainbowDQN", label="self")
+        o.fields.update(dict(actor=RNet(1), actor_target=RNet(2), batch_size=1))
+        return o
+
+    def projected_source(t):
+        if not (isinstance(t, tuple) and len(t) == 4 and t[:3] == ("atom-distribution", 2, 2)):
+            return z3.BoolVal(False)
+        i = t[3]
+        return z3.And(0 <= i, i < NACT, z3.ForAll([a_q], z3.Implies(z3.And(0 <= a_q, a_q < NACT), QV(1, 2, i) >= QV(1, 2, a_q))))
+    P.specns["projected_source"] = projected_source
+    P.contract("agilerl.algorithms.dqn_rainbow.RainbowDQN._dqn_loss", variant="projected-source",
+               region=region("next_actions = ", "target_q_dist = target_q_dist["),
+               params={"self": rb_self, "states": (lambda ex, st, l: "obs"), "actions": "opaque", "next_states": (lambda ex, st, l: "next_obs"),
+                       "rewards": "opaque", "dones": "opaque", "gamma": "opaque"},
+               requires=[], frame_fields=False, ensures=["projected_source(target_q_dist)"], replay="c18:projection")
+
     # what learn() minimises / reports as priorities: the 1-step distributional loss of the 1-step batch with gamma, the n-step loss of the
     # n-step batch with gamma**n_step, their sum when combined_reward is set, the n-step loss alone otherwise; priorities = that
     # element-wise loss + prior_eps.  _dqn_loss is an uninterpreted function of (which batch it was handed, discount).
@@ -248,4 +308,6 @@ def build(tier):
     P.assumptions += ["A-REAL: float32 rounding of b is not modelled (b can round above num_atoms-1 for unlucky supports)",
                       "done flags are 0/1; gamma >= 0; source probabilities p >= 0"]
     P.uncovered += ["float32 rounding in b", "that _dqn_loss is a function of its arguments only (noisy layers: reset_noise happens after the step)"]
+    P.native.append(dict(name='projection_native', adapter='c18:projection', thorough_only=True, payload={"mode": "search"},
+                         bound='stub-network runs of the real _dqn_loss (5 supports x rewards inside/outside/on atoms x done flags): projected mass = 1 and mean = clipped target'))
     return P
